@@ -483,7 +483,7 @@ def run_one(choices, params):
 
 
 def prepare(tier, seed):
-    return 5000 if tier == "quick" else 250000
+    return 8000 if tier == "quick" else 250000
 
 
 def params_for(i, tier, seed):
